@@ -2061,6 +2061,14 @@ class CJTypeInstruction(CompressedInstruction):
         return [self.imm]
 
 
+def eval_immediate(item, position, env):
+    # account for AUIPC "PC based on previous inst" nuance: the %lo half of an
+    # AUIPC-based jump (call / tail) is relative to the AUIPC right before it
+    if getattr(item, 'is_auipc_jump', False):
+        position = position - 4
+    return item.imm.eval(position, env, item.line)
+
+
 def read_lines(path_or_source, *, include=False, include_dirs=None):
     def lookup(path, dirs):
         base_path = os.path.dirname(os.path.abspath(path))
@@ -2616,25 +2624,25 @@ def transform_compressible(items, constants, labels):
 
     def ImmEquals(value):
         def inner(i, p, e):
-            imm = i.imm.eval(p, e, i.line)
+            imm = eval_immediate(i, p, e)
             return imm == value
         return inner
 
     def ImmNotEquals(value):
         def inner(i, p, e):
-            imm = i.imm.eval(p, e, i.line)
+            imm = eval_immediate(i, p, e)
             return imm != value
         return inner
 
     def ImmDivisibleBy(value):
         def inner(i, p, e):
-            imm = i.imm.eval(p, e, i.line)
+            imm = eval_immediate(i, p, e)
             return imm % value == 0
         return inner
 
     def ImmBetween(lo, hi):
         def inner(i, p, e):
-            imm = i.imm.eval(p, e, i.line)
+            imm = eval_immediate(i, p, e)
             return imm >= lo and imm <= hi
         return inner
 
@@ -3137,14 +3145,7 @@ def resolve_immediates(items, constants, labels):
 
         # resolve the immediate field
         env = ChainMap(constants, labels)
-        imm = item.imm.eval(position, env, item.line)
-
-        # account for AUIPC "PC based on previous inst" nuance
-        if hasattr(item, 'is_auipc_jump') and item.is_auipc_jump:
-            if isinstance(item, CompressedInstruction):
-                imm += 2
-            else:
-                imm += 4
+        imm = eval_immediate(item, position, env)
 
         d['imm'] = imm
 
